@@ -83,11 +83,37 @@ def model_values(tn):
     return vals
 
 
+def volume_local(tn):
+    """id of the local that holds the model output: the one clamped by `if(v > 127) v = 127;` (the clamp that precedes the operator loop)"""
+    c = getattr(tn, '_c11_vol', None)
+    if c is None:
+        for x in walk(tn.tree):
+            if isinstance(x, dict) and x.get('k') == 'IfStmt' and x.get('cond') is not None and x.get('else') is None:
+                cc = strip(x['cond'])
+                if cc.get('k') == 'BinaryOperator' and cc.get('op') == '>' and const_of(cc['r']) == 127 and strip(cc['l']).get('k') == 'DeclRefExpr' and not strip(cc['l']).get('parm'):
+                    for y in walk(x.get('then')):
+                        ap = assign_parts_raw(y) if isinstance(y, dict) else None
+                        if ap and strip(ap[0]).get('id') == strip(cc['l'])['id'] and const_of(ap[1]) == 127:
+                            c = strip(cc['l'])['id']
+        tn._c11_vol = c if c is not None else -1
+        c = tn._c11_vol
+    return c
+
+
+def level_local(tn):
+    """id of the local written to the total-level registers: the value argument of writeRegI(.., 0x40 + .., v)"""
+    for x in walk(tn.tree):
+        if isinstance(x, dict) and 'callee' in x and short(callee_name(x)) == 'writeRegI' and len(x.get('a', [])) >= 4 and strip(x['a'][3]).get('k') == 'DeclRefExpr':
+            if any(isinstance(y, dict) and const_of(y) == 0x40 for y in walk(x['a'][2])):
+                return strip(x['a'][3])['id']
+    return None
+
+
 def probe_volume(eng, tn, results):
     """value hook: state of `volume` where the final clamp `volume > 127` is evaluated"""
     def hook(e_, e, st):
         c = strip(e)
-        if c.get('k') == 'BinaryOperator' and c['op'] == '>' and const_of(c['r']) == 127 and strip(c['l']).get('k') == 'DeclRefExpr' and short(strip(c['l'])['n']) == 'volume':
+        if c.get('k') == 'BinaryOperator' and c['op'] == '>' and const_of(c['r']) == 127 and strip(c['l']).get('k') == 'DeclRefExpr' and strip(c['l']).get('id') == volume_local(tn):
             key = e_.key_of(strip(c['l']))
             results.append((e_.ev(c['l'], st), getattr(e_, 'mono', {}).get(key)))
     eng.value_hooks.append(hook)
@@ -102,12 +128,12 @@ def analyse(facts, tier):
         raise build.AnalysisBroken('C11: the scaling decision of touchNote (<table>[alg][op] || m_scaleModulators) not found')
     nu = facts.fn('OPNMIDIplay::noteUpdate')
     pr = res['param_ranges']
-    names = [p['n'] for p in tn.params]
+    # the inputs of touchNote by position (the declaration in the class fixes the order): chip channel, velocity, channel volume,
+    # expression, brightness - the names below are labels of the roles, not the spelling of the parameters
     need = ('velocity', 'channelVolume', 'channelExpression', 'brightness')
-    for n in need:
-        if n not in names:
-            raise build.AnalysisBroken('C11: parameter %s of OPN2::touchNote not found' % n)
-    pidx = {n: names.index(n) for n in need}
+    if len(tn.params) < 5 or not all((p_['t'] or {}).get('w') for p_ in tn.params[:5]):
+        raise build.AnalysisBroken('C11: OPN2::touchNote does not have the five integer parameters (channel, velocity, volume, expression, brightness)')
+    pidx = {n: i_ + 1 for i_, n in enumerate(need)}
     for n in need:
         if ('OPN2::touchNote', pidx[n]) not in pr:
             raise build.AnalysisBroken('C11: no call-site range for touchNote parameter %s' % n)
@@ -131,7 +157,7 @@ def analyse(facts, tier):
             if x.get('k') == 'ConditionalOperator' and mentions(x['cnd'], lambda y: y.get('k') == 'DeclRefExpr' and y.get('id') in SCALE_IDS):
                 levels.append((x.get('ln'), 'scaled level (do_op)', e_.ev(x['l'], st)))
             ap = assign_parts(x)
-            if ap and strip(ap[0]).get('k') == 'DeclRefExpr' and short(strip(ap[0])['n']) == 'vol_res':
+            if ap and strip(ap[0]).get('k') == 'DeclRefExpr' and strip(ap[0]).get('id') == level_local(tn):
                 levels.append((x.get('ln'), 'brightness-scaled level', e_.ev(ap[1], st)))
     def decl_hook(e_, e, st):
         pass
@@ -203,12 +229,8 @@ def analyse(facts, tier):
     m = Mono(facts, res['field_ranges'], e2prog.MIN_SIZES, pr, resizers=res['resizers'])
     m.wrt_field = None
     dirs = {}
-    vol_id = None
-    for b_, j_, st_ in tn.cfg.stmts():
-        if st_['s'].get('k') == 'DeclStmt':
-            for v in st_['s']['decls']:
-                if v['n'] == 'volume':
-                    vol_id = v['id']
+    vol_id = volume_local(tn)
+    vol_id = None if vol_id == -1 else vol_id
     if vol_id is None:
         raise build.AnalysisBroken('C11.R3: local `volume` not found')
     def dir_hook(e_, e, st):
@@ -220,12 +242,12 @@ def analyse(facts, tier):
                 dirs['level_vs_volume'] = (e_.dir_of(x['l'], st), x.get('ln'))
                 e_.wrt, e_.mono = save
             ap = assign_parts(x)
-            if ap and strip(ap[0]).get('k') == 'DeclRefExpr' and short(strip(ap[0])['n']) == 'vol_res':
+            if ap and strip(ap[0]).get('k') == 'DeclRefExpr' and strip(ap[0]).get('id') == level_local(tn):
                 save = e_.wrt, dict(e_.mono)
                 e_.wrt = ('v', tn.params[pidx['brightness']]['id']); e_.mono = {}
                 dirs['level_vs_brightness'] = (e_.dir_of(ap[1], st), x.get('ln'))
                 e_.wrt, e_.mono = save
-            if ap and strip(ap[0]).get('k') == 'DeclRefExpr' and short(strip(ap[0])['n']) == 'brightness':
+            if ap and strip(ap[0]).get('k') == 'DeclRefExpr' and strip(ap[0]).get('id') == tn.params[pidx['brightness']]['id']:
                 save = e_.wrt, dict(e_.mono)
                 e_.wrt = ('v', tn.params[pidx['brightness']]['id']); e_.mono = {}
                 dirs['brightness_curve'] = (e_.dir_of(ap[1], st), x.get('ln'))
@@ -272,7 +294,9 @@ def analyse(facts, tier):
         s = st_['s']
         if s.get('k') == 'DeclStmt':
             for v in s['decls']:
-                if v['n'] == 'alg_do' and 'init' in v:
+                # the carrier table: the 8 x 4 boolean table the scaling decision subscripts
+                i0 = strip(v['init']) if 'init' in v else None
+                if i0 is not None and i0.get('k') == 'InitListExpr' and len(i0.get('inits', [])) == 8 and all(len(strip(r_).get('inits', [])) == 4 for r_ in i0['inits']):
                     rows = []
                     for r in strip(v['init']).get('inits', []):
                         rows.append([const_of(c) for c in strip(r).get('inits', [])])
@@ -308,10 +332,12 @@ def analyse(facts, tier):
     for b_, j_, st_ in tn.cfg.stmts():
         for x in walk(st_['s']):
             ap = assign_parts(x)
-            if ap and strip(ap[0]).get('k') == 'DeclRefExpr' and short(strip(ap[0])['n']) == 'vol_res':
+            if ap and strip(ap[0]).get('k') == 'DeclRefExpr' and strip(ap[0]).get('id') == level_local(tn):
                 gf = guard_facts(tn, b_, st_)
-                txt = ' '.join(fact_str(f) for f in gf)
-                okb = 'brightness != 127' in txt and '!do_op' in txt
+                br_id = tn.params[pidx['brightness']]['id']
+                reduced = any(f[0] == 'cmp' and f[1] == '!=' and strip(f[2]).get('id') == br_id and const_of(f[3]) == 127 for f in gf)
+                unscaled = any(f[0] == 'truth' and not f[2] and strip(f[1]).get('id') in SCALE_IDS for f in gf)
+                okb = reduced and unscaled
     obls.append(Obl('C11.R4', tn.name, 'brightness only dims unscaled operators when reduced', tn.loc, 'discharged' if okb else 'finding',
                     why='guarded by brightness != 127 and !do_op' if okb else 'brightness scaling is not restricted to reduced brightness on unscaled operators'))
     obls += r5_cache(facts)
